@@ -1,1 +1,25 @@
-From QV Require Import Base Fields SrcFacts Msg SrcDecisions Cache Sim Browser BrowserSpec.
+(* Properties_C19.v — a browser keeps asking: periodic, follow-up and refresh questions (partial). *)
+From QV Require Import Base Fields SrcFacts Msg SrcDecisions Cache Sim Browser BrowserSpec BrowserProofs.
+Local Open Scope Z_scope.
+
+(* PARTIAL (handler level).  The browse question: one PTR question for the browser's type, listing exactly the PTR
+   records the cache holds for that name, after which the 60 s timer (period read from browser.cpp) is re-armed; it is
+   sent at creation and on every expiry of that timer.  A refresh warning makes the browser ask for that record's name
+   and type.  That the questions are actually sent on time over whole histories (codes 70-74: period, follow-up for
+   instances lacking an SRV, refresh instants, enumerate-all batching) is decided on every run by mon_browser. *)
+Theorem C19_browse_question_partial j w b :
+  nth_error (w_browsers w) j = Some b ->
+  exists m, browser_query_timeout j w = [ESendAll m; EStart (T_QUERY_OF j) browse_period_ms] /\
+    m_response m = false /\ m_queries m = [mkQuery (b_type b) T_PTR false] /\
+    m_records m = lookup_view (b_type b) T_PTR (match nth_error (w_caches w) (b_cache b) with Some c => view_of c | None => [] end).
+Proof. exact (query_timeout_spec j w b). Qed.
+Print Assumptions C19_browse_question_partial.
+
+Theorem C19_period_at_most_60s : browse_period_ms <= 60000.
+Proof. exact browse_period_is_60s. Qed.
+Print Assumptions C19_period_at_most_60s.
+
+Theorem C19_refresh_question_partial r :
+  on_should_query r = [ESendAll (add_query (mkQuery (r_name r) (r_type r) false) default_message)].
+Proof. exact (should_query_spec r). Qed.
+Print Assumptions C19_refresh_question_partial.
